@@ -413,3 +413,55 @@ def r_initialize(A, ctx, scope, rule="R-INITIALIZE"):
                         "(other data: wrong gradient; other width: out-of-range read in compiled code)",
                    loc=loc(f, st))
     ctx.floor(rule, n, scope.get("floor", 8))
+
+
+def r_selfdiff(A, ctx, scope, rule="R-SELFDIFF"):
+    ctx.rule(rule, "no stopping quantity is the difference of an array and an alias of itself: when a "
+             "helper writes its result into its first argument and returns it, `x - helper(x, ...)` is "
+             "identically zero (and x has been overwritten): a fixed-point residual computed that way "
+             "certifies any point")
+    flow = A.flow
+    # helpers that return one of their (mutated) parameters
+    ret_alias = {}
+    for f in A.prog.all_functions():
+        rets = [r for r in ast.walk(f.node) if isinstance(r, ast.Return) and isinstance(r.value, ast.Name)]
+        if not rets:
+            continue
+        names = {r.value.id for r in rets}
+        if len(names) == 1:
+            nm = names.pop()
+            params = f.call_params()
+            if nm in params and nm in flow.mut.get(f, ()):
+                ret_alias[f] = params.index(nm)
+    n = 0
+    for f in A.prog.all_functions():
+        if f not in flow.env:
+            continue
+        alias = {}
+        for st in ast.walk(f.node):
+            if isinstance(st, ast.Assign) and len(st.targets) == 1 and isinstance(st.targets[0], ast.Name) \
+                    and isinstance(st.value, ast.Call):
+                kind, callees = flow.resolve_call(f, st.value)
+                for c in callees or ():
+                    if c in ret_alias and len(st.value.args) > ret_alias[c] \
+                            and isinstance(st.value.args[ret_alias[c]], ast.Name):
+                        src = st.value.args[ret_alias[c]].id
+                        if src != st.targets[0].id:
+                            alias[st.targets[0].id] = (src, c, st)
+        if not alias:
+            continue
+        n += 1
+        bad = None
+        for sub in ast.walk(f.node):
+            if isinstance(sub, ast.BinOp) and isinstance(sub.op, ast.Sub) and isinstance(sub.left, ast.Name) \
+                    and isinstance(sub.right, ast.Name):
+                for v, (src, c, st) in alias.items():
+                    if {sub.left.id, sub.right.id} == {v, src}:
+                        bad = (sub, v, src, c)
+        ctx.ob(rule, f"{f.fq}", bad is None,
+               what=(f"{f.qualname}: `{norm_src(bad[0])}` - `{bad[1]}` is what {bad[3].name} returned, i.e. its "
+                     f"argument `{bad[2]}` itself, overwritten in place: the difference is identically zero "
+                     f"and `{bad[2]}` no longer holds the iterate") if bad else "",
+               loc=loc(f, bad[0]) if bad else None)
+    ctx.extra["returns_alias_helpers"] = sorted(x.fq for x in ret_alias)
+    ctx.floor(rule + "/helpers", len(ret_alias), 1)
